@@ -117,7 +117,7 @@ int main(int argc, char **argv) {
       for (int64_t c : d.zeros) if (c >= 0 && c < d.cells) I.setCell(d.id, c * d.e.esz, d.e.fp ? cfpAV(0, d.e.esz) : AV::Int(0, d.e.esz), d.e.esz);
     }
     // ---- stages
-    json::Array stageReports; bool anyMonitor = false; int monitoredStages = 0;
+    json::Array stageReports; bool anyMonitor = false; int monitoredStages = 0; bool abortedAsExpected = false;
     if (setupErrors.empty() && stages) for (auto &sv : *stages) {
       const json::Object &st = *sv.getAsObject(); Function *Fn = findFn(st);
       if (!Fn || Fn->isDeclaration()) { setupErrors.push_back("function " + jstr(st, "fn") + " not found in module " + jstr(st, "mod", "wit")); break; }
@@ -144,7 +144,7 @@ int main(int argc, char **argv) {
       if (mon) for (auto &d : regs) if (I.S.R[d.id].role == Region::OUT) std::fill(I.S.R[d.id].written.begin(), I.S.R[d.id].written.end(), 0);
       Interp::Result r;
       try { r = I.run(*Fn, args); } catch (std::bad_alloc &) { I.err("memory cap reached during interpretation"); }
-      if (I.S.R.empty()) { I.err("no path of " + jstr(st, "fn") + " returns normally"); break; }
+      if (I.S.R.empty()) { if (jbool(w, "expect_abnormal", false)) { abortedAsExpected = true; break; } I.err("no path of " + jstr(st, "fn") + " returns normally"); break; }
       json::Object sr; sr["fn"] = jstr(st, "fn"); sr["normal"] = gStr(r.normal);
       if (auto rn = st.getString("ret")) {
         auto it = regIx.find(rn->str());
@@ -162,21 +162,24 @@ int main(int argc, char **argv) {
     bool broken = !setupErrors.empty() || !I.unsupported.empty();
     if (!broken) {
       // standing obligations of the monitored stage(s)
-      if (anyMonitor) {
+      if (abortedAsExpected) { std::map<std::string, int> kinds; for (auto &f : I.findings) kinds[f.kind]++; const char *standing[] = {"oob-load", "oob-store", "store-to-input", "misaligned", "alloc"}; for (auto k : standing) { nObl++; if (!kinds.count(k) || std::string(k) == "alloc") nOk++; } for (auto &f : I.findings) if (f.kind != "alloc") addViol(json::Object{{"kind", f.kind}, {"region", f.region}, {"off", f.off}, {"bytes", f.n}, {"detail", f.detail}, {"src", srcStr(f.src)}}); nObl++; nOk++; }
+      else if (anyMonitor) {
         std::map<std::string, int> kinds; for (auto &f : I.findings) kinds[f.kind]++;
         const char *standing[] = {"oob-load", "oob-store", "store-to-input", "misaligned", "alloc"};
         for (auto k : standing) { nObl++; if (!kinds.count(k)) nOk++; }
         for (auto &f : I.findings) addViol(json::Object{{"kind", f.kind}, {"region", f.region}, {"off", f.off}, {"bytes", f.n}, {"align", f.align}, {"detail", f.detail}, {"src", srcStr(f.src)}});
+        bool expectAbn = jbool(w, "expect_abnormal", false);
         // coverage: every byte of every cell of an out region is written and defined
-        for (auto &d : regs) if (I.S.R[d.id].role == Region::OUT) {
+        if (!expectAbn) for (auto &d : regs) if (I.S.R[d.id].role == Region::OUT) {
           nObl++; std::vector<int64_t> bad;
           for (int64_t c = 0; c < d.cells; c++) { bool ok = true; for (int b = 0; b < d.e.esz; b++) if (!I.S.R[d.id].written[c * d.e.esz + b]) ok = false; if (ok) { AV v = I.peek(d.id, c * d.e.esz, d.e.esz, d.e.fp); if (v.k == AV::UNDEF || v.k == AV::TOP) ok = false; } if (!ok) bad.push_back(c); }
           if (bad.empty()) nOk++; else { json::Array cells; for (size_t i = 0; i < bad.size() && i < 64; i++) cells.push_back(bad[i]); addViol(json::Object{{"kind", "unwritten-cells"}, {"region", d.name}, {"cells", std::move(cells)}, {"count", (int64_t)bad.size()}}); }
         }
         // the monitored stage must be able to complete normally
-        nObl++; if (!I.abnormalUnconditional) nOk++; else addViol(json::Object{{"kind", "always-abnormal"}, {"detail", I.abnormal.empty() ? "" : I.abnormal[0]}});
+        if (!expectAbn) { nObl++; if (!I.abnormalUnconditional) nOk++; else addViol(json::Object{{"kind", "always-abnormal"}, {"detail", I.abnormal.empty() ? "" : I.abnormal[0]}}); }
+        else { nObl++; if (I.abnormalUnconditional || I.S.R.empty()) nOk++; else addViol(json::Object{{"kind", "no-error-raised"}, {"detail", "an out-of-range index must raise an error instead of completing"}}); }
       }
-      if (auto *obls = w.getArray("obligations")) for (auto &ov : *obls) {
+      if (!abortedAsExpected) if (auto *obls = w.getArray("obligations")) for (auto &ov : *obls) {
         const json::Object &o = *ov.getAsObject(); std::string kind = jstr(o, "kind"), mode = jstr(o, "mode", "EXACT");
         auto cellTerm = [&](RegionDecl &d, int64_t c) { AV v = I.peek(d.id, c * d.e.esz, d.e.esz, d.e.fp); return termOf(v); };
         auto report = [&](const CmpResult &r, const std::string &region, int64_t cell, int srcid) {
